@@ -7,7 +7,6 @@ props = json.load(open(os.path.join(ROOT, "contracts", "props.json")))
 NA = {
  "C01": "soundness is a meta-theorem over typing derivations x VM runs; the per-operator lemmas live in Product/Unit/DType iterator code neither Verus nor Kani can process; the known exponent mismatch is a cross-phase disagreement no single-function postcondition expresses (DESIGN 5)",
  "C03": "numerical-accuracy claim ('up to floating-point rounding') over Product/Unit iterator code: Verus cannot state an f64 tolerance or take the code, Kani cannot run it (>25 min for one same-unit addition) (DESIGN 5)",
- "C07": "a relation between DIFFERENT input histories (incremental vs batched vs replayed); no contract on one call states it (DESIGN 5)",
  "C13": "quantifies over the loaded prelude (a finite configuration that must be executed); PrefixParser is &str suffix logic over an IndexMap, outside Verus (DESIGN 5)",
  "C14": "digit generation, rounding and grouping are pretty_dtoa / num_format; numbat contributes a branch and string trimming (DESIGN 5)",
  "C15": "pretty-printer <-> parser round trip over the whole AST (strings, decorators, generics): a language-level theorem, not a function contract (DESIGN 5)",
@@ -43,6 +42,8 @@ TEXT = {
          "contract-based deductive verification (Verus) of the real run loop (statement-level extraction), the error arms of parse_and_evaluate (arm-level) and exit_status_in_case_of_error"),
  "C17": ("other", "4.12", "PARTIAL (de-duplication clause): Verus proves on the real Resolver::inlining_pass that importing an already imported module changes nothing (no module is read, the import list is unchanged, the program is inlined to exactly its non-import statements in order), that the import list only grows, that a module is registered before its own imports are inlined, and that UnknownModule names a module the importer does not know. Success of every standard-library import and order-independence of the resulting definitions are not covered.",
          "contract-based deductive verification (Verus) of the real inlining_pass (loop invariant over the statement list) and resolve"),
+ "C07": ("other", "4.13", "PARTIAL (two mechanisms): Verus proves that the real SessionHistory::save_inner writes exactly the successful inputs, one line each, in order (so a replay of the saved file replays exactly those), and that the last-result identifiers denote the value of the most recent top-level expression statement regardless of how statements are grouped into inputs (Return / GetLastResult arms of the VM). Agreement of incremental, batched and replayed sessions in general, and independence of a copied session, are not covered.",
+         "contract-based deductive verification (Verus) of the real save_inner (loop invariant against a recursive spec function) and of the VM's last-result arms"),
  "C09": ("other", "4.6", "PARTIAL: Verus proves (i) layout and little-endian round-trip contracts on the real Vm::{push_u16, add_op*, patch_u16_value_at, read_byte, read_u16}; (ii) per-arm layout contracts for 11 arms of compile_expression (identifier resolution = innermost binding, operator mapping and operand order, conditionals with their two jumps, lists / call arguments in source order, calls, function values) and the DefineFunction / expression-statement arms of compile_statement (scope = parameters ++ where-variables while the body is compiled); (iii) whole-stack postconditions for 17 arms of the VM run loop (jumps, logic, comparison, arithmetic, variables, calls and returns, structs, constants, list literals, procedure calls) plus lemmas tying (ii) and (iii) together. Not covered: struct / string / unit-identifier compiler arms, JoinString and foreign-function call arms, the dispatch loop; compile_expression at its recursive call sites is an assumed contract.",
          "contract-based deductive verification (Verus): arm-level extraction of the real compiler and VM match arms, layout/stack postconditions and lemmas"),
  "C08": ("other", "5", "PARTIAL: panic-freedom of every function under contract in all units (arithmetic overflow, indexing, unwrap/expect, unreachable!, assert!/debug_assert! become Verus obligations under the stated preconditions). NOT the whole pipeline: tokenizer, parser, type checker, Product/Unit/DType arithmetic, diagnostics and promptness are outside; the three crashes named in the statement are outside every unit and are not detected.",
